@@ -58,8 +58,13 @@ func (sh *sipHash) compute() uint64 {
 	length := sh.length
 	b := uint64(length) << 56
 
+	// every full block of 8 bytes goes through the compression loop; the last,
+	// partial block (0..7 bytes) shares its word with the length byte. (With a
+	// tail of up to 8 bytes the first byte of an 8-byte tail was OR-ed with the
+	// length: strings whose length is a multiple of 8 and that differ only in
+	// that bit had the same hash, and the table cannot hold two such names.)
 	var index int
-	end := ((sh.length - 1) / 8) * 8
+	end := (sh.length / 8) * 8
 	for index = 0; index < end; index += 8 {
 		m := binary.LittleEndian.Uint64(sh.data[index:])
 
